@@ -39,10 +39,27 @@ type vfTag struct {
 	Entries []vfMMEntry `json:"entries,omitempty"`
 	FB      []byte      `json:"fb,omitempty"`
 	Secs    []vfElfSec  `json:"secs,omitempty"`
+	BigSecs int         `json:"big_secs,omitempty"` // generate this many sections instead of listing them (vfBigSecs)
 	UnkSize int         `json:"unk_size,omitempty"`
+}
+
+// vfBigSecs generates n distinguishable sections (name, flags, address and size all depend on the index; every 7th is empty).
+func vfBigSecs(n int) []vfElfSec {
+	out := make([]vfElfSec, n)
+	for k := range out {
+		sz := uint64(1 + k%5*4096 + k)
+		if k%7 == 3 {
+			sz = 0
+		}
+		out[k] = vfElfSec{fmt.Sprintf(".s%d", k%11), uint64(k % 8), 0xffffffff80000000 + uint64(k)*0x10000, sz}
+	}
+	return out
 }
 type vf10Case struct {
 	Tags []vfTag `json:"tags"` // in block order; the first tag of each kind is the one that counts
+	// Seq is the order in which the accessors are called (m = memory map, e = ELF sections, f = framebuffer, c = command
+	// line; a letter may repeat); empty = "mmefc". Every call is compared with the block.
+	Seq string `json:"seq,omitempty"`
 }
 
 var vfLE = binary.LittleEndian
@@ -212,8 +229,18 @@ type vf10Env struct {
 func (e *vf10Env) runCase(run *verifrt.Run, c vf10Case) {
 	run.Case()
 	verifrt.JournalJSON(c)
+	orig := c
 	report := func(class, msg string) {
-		run.Violate(class, class+" "+verifrt.JSONKey(c), fmt.Sprintf("%s: %s", vfShortJSON(c), msg), c)
+		run.Violate(class, class+" "+verifrt.JSONKey(orig), fmt.Sprintf("%s: %s", vfShortJSON(orig), msg), orig)
+	}
+	if c.hasBig() {
+		tags := append([]vfTag(nil), c.Tags...)
+		for i := range tags {
+			if tags[i].BigSecs > 0 {
+				tags[i].Secs = vfBigSecs(tags[i].BigSecs)
+			}
+		}
+		c = vf10Case{Tags: tags, Seq: c.Seq}
 	}
 	// the string table sits flush against its own guard page
 	probe := vfEncodeBlock(c.Tags, &e.strtab, 0)
@@ -229,10 +256,7 @@ func (e *vf10Env) runCase(run *verifrt.Run, c vf10Case) {
 			first[c.Tags[i].Kind] = &c.Tags[i]
 		}
 	}
-	var pan interface{}
-	func() {
-		defer func() { pan = recover() }()
-		// memory map
+	qMem := func() {
 		var got []vfMMEntry
 		VisitMemRegions(func(en *MemoryMapEntry) bool {
 			got = append(got, vfMMEntry{en.PhysAddress, en.Length, uint32(en.Type)})
@@ -259,7 +283,8 @@ func (e *vf10Env) runCase(run *verifrt.Run, c vf10Case) {
 				report("memory-map", fmt.Sprintf("visitor returned false but was called %d times", n))
 			}
 		}
-		// ELF sections
+	}
+	qElf := func() {
 		var gs []vfElfSec
 		VisitElfSections(func(name string, fl ElfSectionFlag, a uintptr, sz uint64) {
 			gs = append(gs, vfElfSec{string(append([]byte(nil), name...)), uint64(fl), uint64(a), sz})
@@ -274,9 +299,21 @@ func (e *vf10Env) runCase(run *verifrt.Run, c vf10Case) {
 			ws = append(ws, vfElfSec{".shstrtab", 0, uint64(strAddr), uint64(len(e.strtab))})
 		}
 		if !reflect.DeepEqual(gs, ws) {
-			report("elf-sections", fmt.Sprintf("ELF sections reported %v, the block encodes %v", gs, ws))
+			msg := fmt.Sprintf("ELF sections reported %v, the block encodes %v", gs, ws)
+			if len(gs)+len(ws) > 40 {
+				k := 0
+				for k < len(gs) && k < len(ws) && gs[k] == ws[k] {
+					k++
+				}
+				msg = fmt.Sprintf("%d ELF sections reported, the block encodes %d; the first difference is at reported section %d", len(gs), len(ws), k)
+				if k < len(gs) && k < len(ws) {
+					msg += fmt.Sprintf(" (%v instead of %v)", gs[k], ws[k])
+				}
+			}
+			report("elf-sections", msg)
 		}
-		// framebuffer
+	}
+	qFB := func() {
 		info := GetFramebufferInfo()
 		t := first["fb"]
 		if (info != nil) != (t != nil) {
@@ -294,7 +331,8 @@ func (e *vf10Env) runCase(run *verifrt.Run, c vf10Case) {
 				report("framebuffer", "RGB layout differs from the tag")
 			}
 		}
-		// command line
+	}
+	qCmd := func() {
 		kv := GetBootCmdLine()
 		wantKV := map[string]string{}
 		defined := true
@@ -303,6 +341,26 @@ func (e *vf10Env) runCase(run *verifrt.Run, c vf10Case) {
 		}
 		if defined && !reflect.DeepEqual(kv, wantKV) {
 			report("command-line", fmt.Sprintf("command line decoded as %v, expected %v", kv, wantKV))
+		}
+	}
+	seq := c.Seq
+	if seq == "" {
+		seq = "mefc"
+	}
+	var pan interface{}
+	func() {
+		defer func() { pan = recover() }()
+		for _, q := range seq {
+			switch q {
+			case 'm':
+				qMem()
+			case 'e':
+				qElf()
+			case 'f':
+				qFB()
+			case 'c':
+				qCmd()
+			}
 		}
 	}()
 	if pan != nil {
@@ -317,6 +375,15 @@ func (e *vf10Env) runCase(run *verifrt.Run, c vf10Case) {
 		kinds += t.Kind[:1]
 	}
 	run.Distinct(kinds + fmt.Sprint(len(blk)))
+}
+
+func (c vf10Case) hasBig() bool {
+	for _, t := range c.Tags {
+		if t.BigSecs > 0 {
+			return true
+		}
+	}
+	return false
 }
 
 func containsFault(p interface{}) bool {
@@ -350,8 +417,18 @@ func TestVerifC10(t *testing.T) {
 	defer func() { infoData, cmdLineKV = saved, savedKV }()
 	env := &vf10Env{blk: vfNewGuarded(16384), str: vfNewGuarded(4096)}
 
+	var bigEnv *vf10Env
+	big := func() *vf10Env {
+		if bigEnv == nil {
+			bigEnv = &vf10Env{blk: vfNewGuarded(5 << 20), str: vfNewGuarded(1 << 20)}
+		}
+		return bigEnv
+	}
 	var rp vf10Case
 	if run.Replaying(&rp) {
+		if rp.hasBig() {
+			env = big()
+		}
 		env.runCase(run, rp)
 		run.Finish(true, "replay", "replay")
 		return
@@ -430,11 +507,11 @@ func TestVerifC10(t *testing.T) {
 							}
 							// duplicates appended last: the first tag of each type must win
 							withDup := append(append([]vfTag{}, ord...), vfTag{Kind: "mmap", EntSize: 24, Entries: []vfMMEntry{{0xdead, 1, 1}}}, vfTag{Kind: "cmdline", Cmdline: "dup=1"})
-							c := vf10Case{withDup}
+							c := vf10Case{Tags: withDup}
 							run.Sample(c)
 							env.runCase(run, c)
 							// and without duplicates, so that the last real tag abuts the end tag
-							env.runCase(run, vf10Case{ord})
+							env.runCase(run, vf10Case{Tags: ord})
 						}
 					}
 				}
@@ -443,22 +520,68 @@ func TestVerifC10(t *testing.T) {
 	}
 	if run.Shard == 0 {
 		// absent tags; each tag alone; the tag directly in front of the guard page
-		env.runCase(run, vf10Case{nil})
-		env.runCase(run, vf10Case{[]vfTag{{Kind: "unknown", UnkSize: 1}}})
+		env.runCase(run, vf10Case{})
+		env.runCase(run, vf10Case{Tags: []vfTag{{Kind: "unknown", UnkSize: 1}}})
 		for _, cl := range cmdlines {
-			env.runCase(run, vf10Case{[]vfTag{{Kind: "cmdline", Cmdline: cl}}})
+			env.runCase(run, vf10Case{Tags: []vfTag{{Kind: "cmdline", Cmdline: cl}}})
 		}
 		for _, m := range mmaps {
-			env.runCase(run, vf10Case{[]vfTag{m}})
+			env.runCase(run, vf10Case{Tags: []vfTag{m}})
 		}
 		for _, e := range elfs {
-			env.runCase(run, vf10Case{[]vfTag{e}})
+			env.runCase(run, vf10Case{Tags: []vfTag{e}})
 		}
 		for _, fb := range fbs[1:] {
-			env.runCase(run, vf10Case{[]vfTag{{Kind: "fb", FB: fb}}})
+			env.runCase(run, vf10Case{Tags: []vfTag{{Kind: "fb", FB: fb}}})
 		}
 	}
-	run.Finish(true, "9 command lines x 24 memory maps (entry size {24,28,32,40}, 0-3 entries, every type in {0..6, 2^32-1}, extreme addresses/lengths) x 4 ELF tables x framebuffer {none, RGB 32/16/15/24, EGA, indexed, unknown type} x unknown tag of size {none,0,3,5} (padding); every tag order on the small blocks; duplicate tags appended; each tag alone; every block flush against an inaccessible page",
+	// accessor sequences: every presence subset of the four decoded tags x every sequence of <=4 accessor calls (a lookup
+	// of an absent tag after a present one, the same accessor twice, ...)
+	{
+		full := []vfTag{{Kind: "mmap", EntSize: 24, Entries: []vfMMEntry{{0x1000, 0x9f000, 1}, {0x100000, 0x7ee0000, 1}, {0xfffc0000, 0x40000, 2}}}, elfs[3], {Kind: "fb", FB: fbs[1]}, {Kind: "cmdline", Cmdline: "a=b c"}}
+		var seqs []string
+		var rec func(cur string)
+		rec = func(cur string) {
+			if cur != "" {
+				seqs = append(seqs, cur)
+			}
+			if len(cur) == 4 {
+				return
+			}
+			for _, q := range "mefc" {
+				rec(cur + string(q))
+			}
+		}
+		rec("")
+		for mask := 0; mask < 16; mask++ {
+			idx++
+			if !run.Mine(idx) {
+				continue
+			}
+			var tags []vfTag
+			for i := range full {
+				if mask&(1<<uint(i)) != 0 {
+					tags = append(tags, full[i])
+				}
+			}
+			for _, sq := range seqs {
+				env.runCase(run, vf10Case{Tags: tags, Seq: sq})
+			}
+		}
+	}
+	// section tables around and above 1024 and 32768 headers (the header count is a 16-bit field; 64-byte headers)
+	for _, n := range []int{1022, 1023, 1024, 1025, 1100, 2049, 4097, 32767, 32769, 65534} {
+		idx++
+		if !run.Mine(idx) {
+			continue
+		}
+		if !run.Thorough() && n > 5000 {
+			continue
+		}
+		big().runCase(run, vf10Case{Tags: []vfTag{{Kind: "elf", BigSecs: n}}, Seq: "e"})
+		big().runCase(run, vf10Case{Tags: []vfTag{{Kind: "cmdline", Cmdline: "x"}, {Kind: "elf", BigSecs: n}, mmaps[2]}})
+	}
+	run.Finish(true, "9 command lines x 24 memory maps (entry size {24,28,32,40}, 0-3 entries, every type in {0..6, 2^32-1}, extreme addresses/lengths) x 4 ELF tables x framebuffer {none, RGB 32/16/15/24, EGA, indexed, unknown type} x unknown tag of size {none,0,3,5} (padding); every tag order on the small blocks; duplicate tags appended; each tag alone; 16 presence subsets x every sequence of <=4 accessor calls; section tables of 1022..4097 (thorough: ..65534) headers; every block flush against an inaccessible page",
 		"distinct = (tag order, block size); every decoded field is compared with the AST the block was generated from")
 }
 
